@@ -181,7 +181,21 @@ fn gen_steps(rng: &mut rand::rngs::StdRng) -> Vec<Step> {
                     pool.cells.push("myname1".into());
                 }
                 let depth = rng.gen_range(1..=3);
-                let f = core_expr(rng, depth, &pool);
+                let mut f = core_expr(rng, depth, &pool);
+                // text built from numbers and coerced back to a number is read with the
+                // locale's separators and date order (a result that is defined to depend on the
+                // locale); x+(y+z) is re-associated by a reload (C09): neither is generated
+                for _ in 0..20 {
+                    let t = fgen::print(&f, &Dialect::new("en", "en"));
+                    if !(t.contains('&') || t.contains("CONCAT") || t.contains("+(")) {
+                        break;
+                    }
+                    f = core_expr(rng, depth.min(2), &pool);
+                }
+                let t = fgen::print(&f, &Dialect::new("en", "en"));
+                if t.contains('&') || t.contains("CONCAT") || t.contains("+(") {
+                    f = F::Num("5".into());
+                }
                 Step::Input(s, r, c, all_prints(&f, "="))
             }
             8..=10 => {
